@@ -6,9 +6,20 @@
 // on lattice, node-face, clustered, perturbed and degenerate (planar, linear,
 // tiny) point sets; query centres on a lattice of the box and on the points
 // themselves; exact ties (|r - h| within 8 eps) are accepted either way.
+//
+// Block-clustered sets ("shell exhaustion"): the generators occupy a chosen
+// subset of the s^3 search blocks of PointLocations (every unordered pair of
+// blocks incl. a single block, every axis-parallel line and slab of blocks,
+// the diagonals and diagonal planes), and the searches are started from EVERY
+// block (several positions per block), so that the shell-by-shell traversal
+// has to run to its last shell and its last block: get_closest_neighbour, the
+// radius protocol around an arbitrary position (generalngbiterator) and
+// around a stored point (ngbiterator), and the Octree searches.
 #include "Octree.hpp"
 #include "PointLocations.hpp"
 #include "c16_march.hpp"
+#include <map>
+#include <omp.h>
 #include <set>
 #include <sys/wait.h>
 
@@ -35,8 +46,10 @@ static std::vector< PSet > make_sets(bool thorough, long seed) {
   // constant perturbation pattern (seed selects the rotation of the table)
   const double pert[7] = {0.13, -0.31, 0.07, 0.29, -0.11, -0.23, 0.19};
   auto pp = [&](size_t i) { return pert[(i + seed) % 7]; };
-  for (const Box<> &b : {unit, skew}) {
-    const std::string bn = (&b == &unit) ? "unit" : "skew";
+  const Box<> *const boxes[2] = {&unit, &skew};
+  for (int ib = 0; ib < 2; ++ib) {
+    const Box<> &b = *boxes[ib];
+    const std::string bn = ib == 0 ? "unit" : "skew";
     const double smin = std::min(b.get_sides().x(), std::min(b.get_sides().y(), b.get_sides().z()));
     for (int m : (thorough ? std::vector< int >{2, 3, 4, 5, 7} : std::vector< int >{2, 3, 4})) {
       // cell-centred lattice
@@ -105,6 +118,17 @@ static std::vector< PSet > make_sets(bool thorough, long seed) {
       PSet three{"three-points-" + bn, b, {inbox(b, 0.1, 0.2, 0.3), inbox(b, 0.1, 0.2, 0.8), inbox(b, 0.9, 0.9, 0.05)}, smin / 2, false};
       v.push_back(two);
       v.push_back(three);
+    }
+    // generic (Kronecker lattice) sets whose sizes sit on both sides of the
+    // rounding thresholds of the block count round(cbrt(N / num_per_cell)):
+    // 3|4 (1 -> 2 blocks per axis), 15|16 (2 -> 3), 42|43 (3 -> 4)
+    for (int n : {3, 4, 15, 16, 42, 43}) {
+      PSet k{fmt("kronecker-%d-%s", n, bn.c_str()), b, {}, smin / std::cbrt((double)n), false};
+      for (int i = 1; i <= n; ++i) {
+        const double u = i * 0.7548776662466927 + 0.1 * (seed % 7), w = i * 0.5698402909980532, z = i * 0.4301597090019468;
+        k.pts.push_back(inbox(b, u - std::floor(u), w - std::floor(w), z - std::floor(z)));
+      }
+      v.push_back(k);
     }
   }
   return v;
@@ -175,12 +199,21 @@ static bool compare_members(const std::vector< uint_fast32_t > &got, const std::
   return true;
 }
 
-static void check_octree(const PSet &s, bool periodic, int hpat, Result &R, Stats &st, bool thorough) {
+static const int NHPAT = 5;
+
+static void check_octree(const PSet &s, bool periodic, int hpat, Result &R, Stats &st, const std::vector< CoordinateVector<> > &centres,
+                         const std::vector< double > &radii) {
   std::vector< CoordinateVector<> > pts(s.pts); // the tree may move duplicates
   const size_t N = pts.size();
   std::vector< double > hs(N);
+  const double maxside = std::max(s.box.get_sides().x(), std::max(s.box.get_sides().y(), s.box.get_sides().z()));
   for (size_t i = 0; i < N; ++i) {
     switch (hpat) {
+    case 4:
+      // smoothing lengths on the scale of the box (5 values, 0.10 .. 0.42 of
+      // the longest side): queries far away from a cluster still have members
+      hs[i] = maxside * (0.10 + 0.08 * (i % 5));
+      break;
     case 0:
       hs[i] = 0.75 * s.spacing;
       break;
@@ -196,12 +229,18 @@ static void check_octree(const PSet &s, bool periodic, int hpat, Result &R, Stat
   }
   const std::string P = periodic ? ":periodic" : "";
   Octree tree(pts, s.box, periodic);
+  {
+    // history of length 2: the node maxima are set twice, first from much
+    // larger values; the second call must replace, not accumulate
+    std::vector< double > big(N);
+    for (size_t i = 0; i < N; ++i)
+      big[i] = 3. * maxside + hs[i];
+    tree.set_auxiliaries(big, Octree::max< double >);
+  }
   tree.set_auxiliaries(hs, Octree::max< double >);
   for (size_t i = 0; i < N; ++i)
     if (pts[i].x() != s.pts[i].x() || pts[i].y() != s.pts[i].y() || pts[i].z() != s.pts[i].z())
       R.violation("C16:octree:moved-a-position", fmt("set %s: position %zu was changed by the tree construction", s.name.c_str(), i), setrep(s, "octree", ""));
-  const std::vector< CoordinateVector<> > centres = query_lattice(s, thorough ? 4 : 3);
-  const double radii[3] = {0., 0.6 * s.spacing, 2.2 * s.spacing};
   for (size_t ic = 0; ic < centres.size(); ++ic) {
     const CoordinateVector<> &c = centres[ic];
     std::vector< Q > r(N);
@@ -369,6 +408,445 @@ static void check_pointlocations(const PSet &s, unsigned num_per_cell, bool own_
   delete plp;
 }
 
+// ===================================================================
+// Block-clustered generator sets: searches that must run to the last shell
+// ===================================================================
+
+/// the boxes of the block-clustered sets: three different side lengths per
+/// box, the longest side along a different axis, anchors of both signs,
+/// block sides that are not binary fractions for odd block counts
+static const int NBOX = 3;
+static Box<> bbox(int i) {
+  switch (i) {
+  case 0:
+    return Box<>(CoordinateVector<>(0.), CoordinateVector<>(1.));
+  case 1:
+    return Box<>(CoordinateVector<>(-2., 1., 0.5), CoordinateVector<>(4., 2., 1.));
+  default:
+    return Box<>(CoordinateVector<>(0.25, -3., -1.), CoordinateVector<>(1., 3., 2.));
+  }
+}
+static const char *bbox_name(int i) { return i == 0 ? "unit" : (i == 1 ? "skew421" : "skew132"); }
+
+struct BSet {
+  std::string name;
+  std::string family;
+  int box;      // index for bbox()
+  int s;        // blocks per axis of the PointLocations grid
+  unsigned npc; // num_per_cell handed to PointLocations
+  size_t N;     // number of generators (N / npc = s^3 in integer division)
+  std::vector< int > blocks; // occupied blocks, linear index (ix*s+iy)*s+iz
+  int noff;     // number of query positions per block
+  bool protocol; // also run the iterator protocols directly
+  bool octree;   // also run the Octree searches
+};
+
+/// in-block fractions of the query positions: centre, next to the lower
+/// corner, next to the upper corner, exactly the lower corner (a block face in
+/// all three dimensions), mixed
+static const double QOFF[5][3] = {{0.5, 0.5, 0.5}, {0.03, 0.07, 0.11}, {0.97, 0.93, 0.89}, {0., 0., 0.}, {0.03, 0.93, 0.5}};
+
+static std::string blocks_name(const std::vector< int > &b) {
+  std::string n;
+  for (size_t i = 0; i < b.size(); ++i)
+    n += fmt(i ? "-%d" : "%d", b[i]);
+  return n;
+}
+
+/// the finite alphabet of block-clustered sets for one tier
+static std::vector< BSet > make_block_sets(bool thorough) {
+  std::vector< BSet > v;
+  auto add = [&](const std::string &fam, int box, int s, unsigned npc, size_t N, const std::vector< int > &blocks, int noff, bool protocol, bool octree) {
+    BSet b;
+    b.family = fam;
+    b.box = box;
+    b.s = s;
+    b.npc = npc;
+    b.N = N;
+    b.blocks = blocks;
+    b.noff = noff;
+    b.protocol = protocol;
+    b.octree = octree;
+    b.name = fmt("blk:%s:%s:s%d:npc%u:n%zu:", fam.c_str(), bbox_name(box), s, npc, N) + blocks_name(blocks);
+    v.push_back(b);
+  };
+  for (int box = 0; box < NBOX; ++box) {
+    // --- one block of the whole grid: 1, 2 and 3 generators
+    add("single-grid-block", box, 1, 1, 1, {0}, 5, true, false);
+    add("single-grid-block", box, 1, 2, 2, {0}, 5, true, true);
+    add("single-grid-block", box, 1, 3, 3, {0}, 5, true, true);
+    add("single-grid-block", box, 1, 100, 7, {0}, 5, true, true);
+    // --- every unordered pair of blocks (a == b: all generators in one block)
+    const int smax_pair = thorough ? 6 : 4;
+    for (int s = 2; s <= smax_pair; ++s) {
+      const int nb = s * s * s;
+      if (s == 6 && box != 1)
+        continue; // 6^3 blocks: the box with three different block sides only
+      for (int a = 0; a < nb; ++a)
+        for (int b = a; b < nb; ++b) {
+          std::vector< int > bl = {a};
+          if (b != a)
+            bl.push_back(b);
+          add("pair", box, s, 1, (size_t)nb, bl, s <= 4 ? 5 : (s == 5 ? 3 : 2), s <= 3, s == 3 || (thorough && s == 2));
+        }
+    }
+    // --- lines, slabs, diagonals and diagonal planes of blocks
+    const int smax = thorough ? 8 : 5;
+    for (int s = 2; s <= smax; ++s) {
+      const int nb = s * s * s;
+      auto lin = [&](int i, int j, int k) { return (i * s + j) * s + k; };
+      for (int variant = 0; variant < 2; ++variant) {
+        // variant 1: three generators per block on average (+1, so that the
+        // integer division N / num_per_cell has a remainder)
+        const unsigned npc = variant ? 3 : 1;
+        const size_t N = variant ? 3 * (size_t)nb + 1 : (size_t)nb;
+        if (variant && s > (thorough ? 6 : 4))
+          continue;
+        const bool oct = s <= (thorough ? 4 : 3) && variant == 0;
+        for (int axis = 0; axis < 3; ++axis) {
+          for (int p = 0; p < s; ++p)
+            for (int q = 0; q < s; ++q) {
+              std::vector< int > bl;
+              for (int t = 0; t < s; ++t)
+                bl.push_back(axis == 0 ? lin(t, p, q) : (axis == 1 ? lin(p, t, q) : lin(p, q, t)));
+              add(fmt("line-%c", "xyz"[axis]), box, s, npc, N, bl, 5, true, oct);
+            }
+          for (int p = 0; p < s; ++p) {
+            std::vector< int > bl;
+            for (int t = 0; t < s; ++t)
+              for (int u = 0; u < s; ++u)
+                bl.push_back(axis == 0 ? lin(p, t, u) : (axis == 1 ? lin(t, p, u) : lin(t, u, p)));
+            add(fmt("slab-%c", "xyz"[axis]), box, s, npc, N, bl, 5, true, oct);
+          }
+        }
+        // the four space diagonals
+        for (int d = 0; d < 4; ++d) {
+          std::vector< int > bl;
+          for (int t = 0; t < s; ++t)
+            bl.push_back(lin(d == 3 ? s - 1 - t : t, d == 2 ? s - 1 - t : t, d == 1 ? s - 1 - t : t));
+          add(fmt("space-diagonal-%d", d), box, s, npc, N, bl, 5, true, oct);
+        }
+        // the six diagonal planes i == j / i + j == s-1 for the three axis pairs
+        for (int pair = 0; pair < 3; ++pair)
+          for (int anti = 0; anti < 2; ++anti) {
+            std::vector< int > bl;
+            for (int t = 0; t < s; ++t)
+              for (int u = 0; u < s; ++u) {
+                const int w = anti ? s - 1 - t : t;
+                bl.push_back(pair == 0 ? lin(t, w, u) : (pair == 1 ? lin(t, u, w) : lin(u, t, w)));
+              }
+            add(fmt("diagonal-plane-%d%s", pair, anti ? "-anti" : ""), box, s, npc, N, bl, 5, true, oct);
+          }
+      }
+    }
+  }
+  return v;
+}
+
+/// generators of a block-clustered set: generator k lies in block
+/// blocks[k % nb], at in-block fractions 0.15 + 0.7 * frac(j * (a1,a2,a3) + rot)
+/// with j = k / nb + 1 (Kronecker lattice: distinct, generic, reproducible)
+static PSet realise(const BSet &b, long seed) {
+  PSet s{b.name, bbox(b.box), {}, 0., false};
+  const size_t nb = b.blocks.size();
+  const double rot = 0.1 * (seed % 7);
+  for (size_t k = 0; k < b.N; ++k) {
+    const int blk = b.blocks[k % nb];
+    const int bi[3] = {blk / (b.s * b.s), (blk / b.s) % b.s, blk % b.s};
+    const double j = (double)(k / nb + 1);
+    const double a[3] = {j * 0.7548776662466927 + rot, j * 0.5698402909980532 + 2. * rot, j * 0.4301597090019468 + 3. * rot};
+    double f[3];
+    for (int d = 0; d < 3; ++d)
+      f[d] = (bi[d] + 0.15 + 0.7 * (a[d] - std::floor(a[d]))) / b.s;
+    s.pts.push_back(inbox(s.box, f[0], f[1], f[2]));
+  }
+  const CoordinateVector<> sd = s.box.get_sides();
+  s.spacing = std::min(sd.x(), std::min(sd.y(), sd.z())) / b.s / 3.;
+  return s;
+}
+
+static std::vector< CoordinateVector<> > block_queries(const BSet &b, const Box<> &box) {
+  std::vector< CoordinateVector<> > c;
+  for (int i = 0; i < b.s; ++i)
+    for (int j = 0; j < b.s; ++j)
+      for (int k = 0; k < b.s; ++k)
+        for (int o = 0; o < b.noff; ++o)
+          c.push_back(inbox(box, (i + QOFF[o][0]) / b.s, (j + QOFF[o][1]) / b.s, (k + QOFF[o][2]) / b.s));
+  return c;
+}
+
+struct BStats {
+  uint64_t sets = 0, generators = 0, closest = 0, closest_beyond_first_shell = 0, closest_near_ties = 0, pos_protocol = 0, pos_protocol_exhausted = 0,
+           point_protocol = 0, point_protocol_exhausted = 0, protocol_near_tolerance = 0, grid_size_verified = 0, octree_sets = 0;
+  double t_positions = 0, t_points = 0, t_octree = 0; // cpu seconds (summed over threads), informational
+  Stats oct;
+  void merge(const BStats &o) {
+    sets += o.sets, generators += o.generators, closest += o.closest, closest_beyond_first_shell += o.closest_beyond_first_shell;
+    closest_near_ties += o.closest_near_ties, pos_protocol += o.pos_protocol, pos_protocol_exhausted += o.pos_protocol_exhausted;
+    point_protocol += o.point_protocol, point_protocol_exhausted += o.point_protocol_exhausted, protocol_near_tolerance += o.protocol_near_tolerance;
+    grid_size_verified += o.grid_size_verified, octree_sets += o.octree_sets;
+    t_positions += o.t_positions, t_points += o.t_points, t_octree += o.t_octree;
+    oct.octree_queries += o.oct.octree_queries, oct.octree_members += o.oct.octree_members, oct.ties += o.oct.ties, oct.nontrivial += o.oct.nontrivial;
+  }
+};
+
+static Q dist2(const CoordinateVector<> &a, const CoordinateVector<> &b) {
+  Q r2 = 0;
+  for (int d = 0; d < 3; ++d) {
+    const Q dx = (Q)a[d] - b[d];
+    r2 += dx * dx;
+  }
+  return r2;
+}
+
+/// the radius search protocol of OldVoronoiGrid::compute_cell with either
+/// iterator: central bucket, then while (increase_range() && max_radius2 < r^2).
+/// Every generator closer than rad - tol must have been delivered, none twice,
+/// not more buckets than the grid has blocks, and an exhausted search must have
+/// delivered everything. Returns a description of the failure or "".
+template < typename IT >
+static std::string run_protocol(IT it, const std::vector< Q > &r /*distances to the centre*/, double rad, Q tol, size_t nblocks, bool &exhausted, bool &near_tol) {
+  const size_t N = r.size();
+  std::vector< int > cnt(N, 0);
+  size_t buckets = 1;
+  auto deliver = [&]() {
+    const auto &ngbs = it.get_neighbours();
+    for (auto j : ngbs) {
+      if (j < N)
+        ++cnt[j];
+    }
+  };
+  deliver();
+  exhausted = true;
+  const double rad2 = rad * rad;
+  while (it.increase_range()) {
+    if (!(it.get_max_radius2() < rad2)) {
+      exhausted = false;
+      break;
+    }
+    deliver();
+    if (++buckets > nblocks)
+      return fmt("more buckets handed out (%zu) than the grid has blocks (%zu)", buckets, nblocks);
+  }
+  near_tol = false;
+  for (size_t j = 0; j < N; ++j) {
+    if (cnt[j] > 1)
+      return fmt("generator %zu delivered %d times", j, cnt[j]);
+    if (cnt[j] == 0 && exhausted)
+      return fmt("the search ran out of blocks after %zu of %zu but generator %zu was never delivered", buckets, nblocks, j);
+    if (cnt[j] == 0 && r[j] < (Q)rad - tol)
+      return fmt("generator %zu at distance %.17Lg < radius %.17g was not delivered when the covered radius^2 reached %.17g (%zu blocks visited)", j, r[j], rad,
+                 it.get_max_radius2(), buckets);
+    if (cnt[j] == 0 && r[j] < (Q)rad + 10 * tol)
+      near_tol = true;
+  }
+  return "";
+}
+
+static void check_block_set(const BSet &b, long seed, Result &R, BStats &st) {
+  const PSet s = realise(b, seed);
+  const size_t N = s.pts.size();
+  ++st.sets;
+  st.generators += N;
+  const std::string rp = setrep(s, "block-clustered", fmt("\"family\": \"%s\", \"blocks_per_axis\": %d, \"num_per_cell\": %u", b.family.c_str(), b.s, b.npc));
+  PointLocations pl(s.pts, b.npc, s.box);
+  const size_t gs = pl._grid.size();
+  if ((int)gs != b.s || (int)pl._grid[0].size() != b.s || (int)pl._grid[0][0].size() != b.s) {
+    R.cap(fmt("set %s: PointLocations chose %zu blocks per axis instead of the intended %d; set skipped", s.name.c_str(), gs, b.s));
+    return;
+  }
+  ++st.grid_size_verified;
+  const size_t nblocks = gs * gs * gs;
+  const CoordinateVector<> A = s.box.get_anchor(), S = s.box.get_sides();
+  // absolute round-off of the covered-region bounds: anchor + (a+1)*side - pos
+  // followed by <= s subtractions/additions of a block side; k = 4
+  Q mag = 0;
+  for (int d = 0; d < 3; ++d)
+    mag = std::max(mag, (Q)std::fabs(A[d]) + std::fabs(S[d]));
+  const Q btol = 4. * DBL_EPSILON * (b.s + 3) * 2. * mag;
+  const std::vector< CoordinateVector<> > centres = block_queries(b, s.box);
+  std::vector< Q > r(N);
+  const double t0 = omp_get_wtime();
+  for (size_t ic = 0; ic < centres.size(); ++ic) {
+    const CoordinateVector<> &c = centres[ic];
+    Q r2min = -1, r2max = 0;
+    for (size_t i = 0; i < N; ++i) {
+      const Q r2 = dist2(s.pts[i], c);
+      if (b.protocol)
+        r[i] = sqrtl(r2);
+      if (r2min < 0 || r2 < r2min)
+        r2min = r2;
+      r2max = std::max(r2max, r2);
+    }
+    // closest generator of an arbitrary position. The code compares squared
+    // distances computed in double (relative error <= 4 eps each): the
+    // returned generator may be farther than the closest by a factor
+    // (1 + 8 eps) in r^2; k = 2
+    const uint_fast32_t got = pl.get_closest_neighbour(c);
+    ++st.closest;
+    const Q r2g = got < N ? dist2(s.pts[got], c) : -1.L;
+    const Q ctol = 16. * DBL_EPSILON * r2min;
+    {
+      // the query is "beyond the first shell" if no generator lies in the
+      // 3x3x3 blocks around the block of the query
+      const int qb = (int)(ic / b.noff);
+      const int qi[3] = {qb / (b.s * b.s), (qb / b.s) % b.s, qb % b.s};
+      bool nearblock = false;
+      for (int blk : b.blocks)
+        nearblock |= std::abs(blk / (b.s * b.s) - qi[0]) <= 1 && std::abs((blk / b.s) % b.s - qi[1]) <= 1 && std::abs(blk % b.s - qi[2]) <= 1;
+      st.closest_beyond_first_shell += !nearblock;
+    }
+    if (got >= N || r2g > r2min + ctol)
+      R.violation("C16:pointlocations:get_closest_neighbour:block-clustered",
+                  fmt("set %s (%d^3 blocks, generators in blocks %s) position (%a,%a,%a) = (%.6g,%.6g,%.6g): returned %zu at distance %.17Lg, closest is at %.17Lg",
+                      s.name.c_str(), b.s, blocks_name(b.blocks).c_str(), c.x(), c.y(), c.z(), c.x(), c.y(), c.z(), (size_t)got, got < N ? sqrtl(r2g) : -1.L, sqrtl(r2min)),
+                  rp);
+    if (got < N && r2g != r2min && r2g <= r2min + 10 * ctol)
+      ++st.closest_near_ties;
+    // radius search around an arbitrary position with the general iterator
+    if (b.protocol) {
+      const Q rmin = sqrtl(r2min), rmax = sqrtl(r2max);
+      const double radii[3] = {(double)(1.1L * rmin), (double)(0.5L * (rmin + rmax)), (double)(1.1L * rmax)};
+      for (int ir = 0; ir < (N > 1 ? 3 : 1); ++ir) {
+        bool exhausted = false, near = false;
+        const std::string why = run_protocol(PointLocations::generalngbiterator(pl, c), r, radii[ir], btol + 8. * DBL_EPSILON * radii[ir], nblocks, exhausted, near);
+        ++st.pos_protocol;
+        st.pos_protocol_exhausted += exhausted;
+        st.protocol_near_tolerance += near;
+        if (!why.empty())
+          R.violation("C16:pointlocations:position-radius-search:block-clustered",
+                      fmt("set %s (%d^3 blocks, generators in blocks %s) position (%a,%a,%a) radius %a: %s", s.name.c_str(), b.s, blocks_name(b.blocks).c_str(), c.x(), c.y(), c.z(),
+                          radii[ir], why.c_str()),
+                      rp);
+      }
+    }
+  }
+  const double t1 = omp_get_wtime();
+  st.t_positions += t1 - t0;
+  // radius search around a stored generator (ngbiterator): the first generator
+  // of every occupied block (generator k < nb lies in blocks[k]) and the last one
+  {
+    std::vector< size_t > cs;
+    for (size_t k = 0; k < std::min(N, b.blocks.size()); ++k)
+      cs.push_back(k);
+    if (N > b.blocks.size())
+      cs.push_back(N - 1);
+    for (size_t centre : cs) {
+      Q rother = -1, rmax = 0;
+      for (size_t i = 0; i < N; ++i) {
+        r[i] = sqrtl(dist2(s.pts[i], s.pts[centre]));
+        rmax = std::max(rmax, r[i]);
+        const bool same_block = b.blocks[i % b.blocks.size()] == b.blocks[centre % b.blocks.size()];
+        if (!same_block && (rother < 0 || r[i] < rother))
+          rother = r[i];
+      }
+      std::vector< double > radii = {(double)(1.1L * rmax), (double)(0.9L * rmax)};
+      if (rother > 0) {
+        radii.push_back((double)(0.9L * rother));
+        radii.push_back((double)(1.1L * rother));
+      }
+      if (N == 1)
+        radii = {1.};
+      for (double rad : radii) {
+        bool exhausted = false, near = false;
+        const std::string why = run_protocol(pl.get_neighbours(centre), r, rad, btol + 8. * DBL_EPSILON * rad, nblocks, exhausted, near);
+        ++st.point_protocol;
+        st.point_protocol_exhausted += exhausted;
+        st.protocol_near_tolerance += near;
+        if (!why.empty())
+          R.violation("C16:pointlocations:radius-search:block-clustered", fmt("set %s (%d^3 blocks, generators in blocks %s) centre generator %zu radius %a: %s", s.name.c_str(), b.s,
+                                                                                blocks_name(b.blocks).c_str(), centre, rad, why.c_str()),
+                      rp);
+      }
+    }
+  }
+  const double t2 = omp_get_wtime();
+  st.t_points += t2 - t1;
+  // Octree searches from every block
+  if (b.octree && N >= 2) {
+    ++st.octree_sets;
+    const double maxside = std::max(S.x(), std::max(S.y(), S.z()));
+    // origins: the first three in-block positions (centre, next to the lower
+    // corner, next to the upper corner) of every block
+    std::vector< CoordinateVector<> > oc;
+    for (size_t ic = 0; ic < centres.size(); ++ic)
+      if ((int)(ic % b.noff) < 3)
+        oc.push_back(centres[ic]);
+    for (int periodic = 0; periodic < 2; ++periodic)
+      for (int hpat : {0, 4})
+        check_octree(s, periodic != 0, hpat, R, st.oct, oc, {0., 2.2 * s.spacing, 0.4 * maxside});
+    st.t_octree += omp_get_wtime() - t2;
+  }
+}
+
+/// observation (not part of the verdict for unequal block counts, which no
+/// PointLocations object can have): the static helpers of both iterators for
+/// grids of sx x sy x sz blocks. increase_indices must enumerate every block
+/// offset of Chebyshev norm = level exactly once per level, and set_max_range
+/// must name the last offset of that enumeration that lies inside the grid.
+template < typename IT >
+static void check_static_helpers(int smax, uint64_t &cases, uint64_t &cubic_cases, uint64_t &noncubic_mismatch, Result &R, const char *which) {
+  for (int sx = 1; sx <= smax; ++sx)
+    for (int sy = 1; sy <= smax; ++sy)
+      for (int sz = 1; sz <= smax; ++sz)
+        for (int ax = 0; ax < sx; ++ax)
+          for (int ay = 0; ay < sy; ++ay)
+            for (int az = 0; az < sz; ++az) {
+              int_fast32_t mx, my, mz, ml;
+              IT::set_max_range(mx, my, mz, ml, ax, ay, az, sx, sy, sz);
+              const int L = std::max(std::max(std::max(ax, sx - 1 - ax), std::max(ay, sy - 1 - ay)), std::max(az, sz - 1 - az));
+              int_fast32_t rx = 0, ry = 0, rz = 0, level = 0;
+              int lx = 0, ly = 0, lz = 0;
+              uint64_t inside = 1, steps = 0;
+              std::string bad;
+              int curlevel = 0;
+              uint64_t in_level = 1;
+              for (;;) {
+                IT::increase_indices(rx, ry, rz, level);
+                if (level > L)
+                  break;
+                if (level != curlevel) {
+                  const uint64_t want = curlevel == 0 ? 1 : (uint64_t)(2 * curlevel + 1) * (2 * curlevel + 1) * (2 * curlevel + 1) - (uint64_t)(2 * curlevel - 1) * (2 * curlevel - 1) * (2 * curlevel - 1);
+                  if (in_level != want)
+                    bad = fmt("level %d enumerated %" PRIu64 " offsets instead of %" PRIu64, curlevel, in_level, want);
+                  curlevel = level;
+                  in_level = 0;
+                }
+                ++in_level;
+                if (std::max(std::max(std::abs(rx), std::abs(ry)), std::abs(rz)) != level)
+                  bad = fmt("offset (%d,%d,%d) handed out on level %d", (int)rx, (int)ry, (int)rz, (int)level);
+                if (++steps > 100000) {
+                  bad = "enumeration does not advance";
+                  break;
+                }
+                if (ax + rx >= 0 && ax + rx < sx && ay + ry >= 0 && ay + ry < sy && az + rz >= 0 && az + rz < sz) {
+                  lx = rx, ly = ry, lz = rz;
+                  ++inside;
+                }
+              }
+              if (bad.empty() && curlevel == L) {
+                const uint64_t want = L == 0 ? 1 : (uint64_t)(2 * L + 1) * (2 * L + 1) * (2 * L + 1) - (uint64_t)(2 * L - 1) * (2 * L - 1) * (2 * L - 1);
+                if (in_level != want)
+                  bad = fmt("level %d enumerated %" PRIu64 " offsets instead of %" PRIu64, L, in_level, want);
+              }
+              ++cases;
+              const bool cubic = sx == sy && sy == sz;
+              cubic_cases += cubic;
+              if (bad.empty() && inside != (uint64_t)sx * sy * sz)
+                bad = fmt("%" PRIu64 " offsets inside the grid instead of %d", inside, sx * sy * sz);
+              if (bad.empty() && (mx != lx || my != ly || mz != lz))
+                bad = fmt("set_max_range gives (%d,%d,%d), the last offset of the traversal inside the grid is (%d,%d,%d)", (int)mx, (int)my, (int)mz, lx, ly, lz);
+              if (!bad.empty()) {
+                if (cubic)
+                  R.violation(fmt("C16:pointlocations:%s:block-traversal-end", which),
+                              fmt("grid of %dx%dx%d blocks, search anchored in block (%d,%d,%d): %s", sx, sy, sz, ax, ay, az, bad.c_str()),
+                              fmt("{\"set\": \"static-helpers\", \"what\": \"%s\"}", which));
+                else
+                  ++noncubic_mismatch;
+              }
+            }
+}
+
 /// run f in a forked child; returns 0 ok, 1 wrong answer, 2 crashed/aborted
 template < typename F > static int in_child(F f) {
   fflush(nullptr);
@@ -391,6 +869,7 @@ int main(int argc, char **argv) {
   if (A.replay.empty() && !freopen("/dev/null", "w", stderr)) {
   }
   const bool th = A.thorough() || !A.replay.empty();
+  c16_install_fault_handler();
   std::vector< PSet > sets = make_sets(th, A.seed);
   Stats st;
   std::string only;
@@ -410,7 +889,7 @@ int main(int argc, char **argv) {
     ++nsets;
     npts += s.pts.size();
     for (int periodic = 0; periodic < 2; ++periodic)
-      for (int hpat = 0; hpat < 4; ++hpat) {
+      for (int hpat = 0; hpat < NHPAT; ++hpat) {
         sigjmp_buf jb;
         if (sigsetjmp(jb, 1)) {
           c16_jmp = nullptr;
@@ -418,7 +897,7 @@ int main(int argc, char **argv) {
           continue;
         }
         c16_jmp = &jb;
-        check_octree(s, periodic != 0, hpat, R, st, th);
+        check_octree(s, periodic != 0, hpat, R, st, query_lattice(s, th ? 4 : 3), {0., 0.6 * s.spacing, 2.2 * s.spacing});
         c16_jmp = nullptr;
       }
     for (unsigned npc : {1u, 2u, 10u, 100u})
@@ -470,11 +949,84 @@ int main(int argc, char **argv) {
                     "{\"set\": \"single-position\", \"what\": \"octree\"}");
     }
   }
-  R.evaluations = st.octree_queries + st.pl_closest + st.pl_radius;
-  R.nontrivial = st.nontrivial;
+  // ---------------- static helpers of both iterators (cheap, first)
+  uint64_t sh_cases = 0, sh_cubic = 0, sh_noncubic_mismatch = 0;
+  const int sh_max = th ? 7 : 5;
+  if (only.empty() || only == "static-helpers") {
+    check_static_helpers< PointLocations::ngbiterator >(sh_max, sh_cases, sh_cubic, sh_noncubic_mismatch, R, "ngbiterator");
+    check_static_helpers< PointLocations::generalngbiterator >(sh_max, sh_cases, sh_cubic, sh_noncubic_mismatch, R, "generalngbiterator");
+  }
+  // ---------------- block-clustered sets
+  BStats bst;
+  std::map< std::string, uint64_t > per_family;
+  std::map< int, uint64_t > per_s;
+  {
+    const std::vector< BSet > bsets = make_block_sets(th);
+    std::vector< size_t > todo;
+    for (size_t i = 0; i < bsets.size(); ++i)
+      if (only.empty() || bsets[i].name == only)
+        todo.push_back(i);
+    bool cut = false;
+#pragma omp parallel
+    {
+      BStats mine;
+      std::map< std::string, uint64_t > fam;
+      std::map< int, uint64_t > ps;
+#pragma omp for schedule(dynamic, 8) nowait
+      for (size_t t = 0; t < todo.size(); ++t) {
+        if (cut)
+          continue;
+        if (R.out_of_time()) {
+#pragma omp critical(c16cut)
+          cut = true;
+          continue;
+        }
+        const BSet &b = bsets[todo[t]];
+        sigjmp_buf jb;
+        const int why = sigsetjmp(jb, 1);
+        if (why) {
+          c16_jmp = nullptr;
+          R.violation("C16:pointlocations:abort:block-clustered",
+                      fmt("set %s (%d^3 blocks, generators in blocks %s): %s", b.name.c_str(), b.s, blocks_name(b.blocks).c_str(), why == 1 ? "cmac_error/abort" : "SIGSEGV/SIGBUS"),
+                      fmt("{\"set\": \"%s\", \"what\": \"block-clustered\"}", b.name.c_str()));
+          continue;
+        }
+        c16_jmp = &jb;
+        check_block_set(b, A.seed, R, mine);
+        c16_jmp = nullptr;
+        std::string f = b.family;
+        const size_t dash = f.find('-');
+        if (f.compare(0, 4, "line") == 0 || f.compare(0, 4, "slab") == 0)
+          f = f.substr(0, dash);
+        else if (f.compare(0, 5, "space") == 0)
+          f = "space-diagonal";
+        else if (f.compare(0, 8, "diagonal") == 0)
+          f = "diagonal-plane";
+        ++fam[f];
+        ++ps[b.s];
+      }
+#pragma omp critical(c16merge)
+      {
+        bst.merge(mine);
+        for (auto &kv : fam)
+          per_family[kv.first] += kv.second;
+        for (auto &kv : ps)
+          per_s[kv.first] += kv.second;
+      }
+    }
+    if (cut)
+      R.hit_deadline(fmt("block-clustered sets: %" PRIu64 " of %zu sets run", bst.sets, todo.size()));
+  }
+  R.evaluations = st.octree_queries + st.pl_closest + st.pl_radius + bst.closest + bst.pos_protocol + bst.point_protocol + bst.oct.octree_queries + sh_cases;
+  R.nontrivial = st.nontrivial + bst.closest + bst.pos_protocol + bst.point_protocol + bst.oct.nontrivial + sh_cases;
   R.rule = "every query of the lattice/point-based centre set on every point set x periodic flag x smoothing-length pattern "
            "(Octree) and x bucket size x box mode (PointLocations), compared member by member with a long double brute force; "
-           "non-trivial = queries with at least one true neighbour (closest-neighbour queries always)";
+           "non-trivial = queries with at least one true neighbour (closest-neighbour queries always). Block-clustered sets: every "
+           "member of the stated families (all unordered pairs of the s^3 search blocks incl. single blocks, all axis-parallel "
+           "lines and slabs of blocks, 4 space diagonals, 6 diagonal planes; 3 boxes with unequal sides) x every block as origin "
+           "of the search x 2-5 positions per block: get_closest_neighbour, radius protocol around the position "
+           "(generalngbiterator) and around stored generators (ngbiterator), Octree searches; all counted as non-trivial "
+           "(the generators are clustered, the searches have to leave the first shell)";
   R.set("point_sets", (double)nsets);
   R.set("points_total", (double)npts);
   R.set("octree_queries", (double)st.octree_queries);
@@ -483,8 +1035,43 @@ int main(int argc, char **argv) {
   R.set("pointlocations_closest_queries", (double)st.pl_closest);
   R.set("pointlocations_radius_searches", (double)st.pl_radius);
   R.set("octree_single_position_probes", (double)single);
+  R.set("octree_smoothing_length_patterns", (double)NHPAT);
+  // block-clustered alphabet
+  R.set("blockset_sets", (double)bst.sets);
+  R.set("blockset_generators_total", (double)bst.generators);
+  R.set("blockset_grid_size_verified_sets", (double)bst.grid_size_verified);
+  R.set("blockset_boxes", (double)NBOX);
+  {
+    std::string j = "{";
+    for (auto &kv : per_family)
+      j += fmt("%s\"%s\": %" PRIu64, j.size() > 1 ? ", " : "", kv.first.c_str(), kv.second);
+    R.set_json("blockset_sets_per_family", j + "}");
+    j = "{";
+    for (auto &kv : per_s)
+      j += fmt("%s\"%d\": %" PRIu64, j.size() > 1 ? ", " : "", kv.first, kv.second);
+    R.set_json("blockset_sets_per_blocks_per_axis", j + "}");
+  }
+  R.set("blockset_closest_queries", (double)bst.closest);
+  R.set("blockset_closest_queries_without_generator_in_the_27_blocks_around_the_query", (double)bst.closest_beyond_first_shell);
+  R.set("blockset_closest_results_within_10x_of_tolerance", (double)bst.closest_near_ties);
+  R.set("blockset_position_radius_searches", (double)bst.pos_protocol);
+  R.set("blockset_position_radius_searches_run_to_the_last_block", (double)bst.pos_protocol_exhausted);
+  R.set("blockset_point_radius_searches", (double)bst.point_protocol);
+  R.set("blockset_point_radius_searches_run_to_the_last_block", (double)bst.point_protocol_exhausted);
+  R.set("blockset_radius_searches_within_10x_of_tolerance", (double)bst.protocol_near_tolerance);
+  R.set("blockset_octree_sets", (double)bst.octree_sets);
+  R.set("blockset_octree_queries", (double)bst.oct.octree_queries);
+  R.set("blockset_octree_exact_ties_accepted_either_way", (double)bst.oct.ties);
+  R.set_str("blockset_thread_seconds_positions_points_octree_informational", fmt("%.1f %.1f %.1f", bst.t_positions, bst.t_points, bst.t_octree));
+  R.set("static_helper_cases", (double)sh_cases);
+  R.set("static_helper_cases_equal_block_counts", (double)sh_cubic);
+  R.set("static_helper_max_blocks_per_axis", (double)sh_max);
+  R.set("static_helper_mismatches_for_unequal_block_counts_observation_only", (double)sh_noncubic_mismatch);
   R.sample(fmt("{\"sets\": %zu, \"example\": \"%s\"}", nsets, sets.empty() ? "" : sets[nsets / 2].name.c_str()));
   R.assumptions.push_back("positions are distinct and inside the half-open box; query centres are inside the box");
+  R.assumptions.push_back("a PointLocations grid has the same number of blocks along every axis by construction (only the block side "
+                          "lengths differ per axis: boxes 1x1x1, 4x2x1, 1x3x2); unequal block counts exist only as arguments of the static "
+                          "helpers set_max_range/increase_indices and are reported as an observation, not a violation");
   R.assumptions.push_back("PointLocations with the automatic bounding box is not built for point sets with zero extent along an axis "
                           "(the constructor divides by that extent); such sets are run with the explicit box, as every caller in src/ does");
   if (!A.replay.empty()) {
